@@ -21,18 +21,23 @@ case = {'rounds': [{'batch': [op...], 'fire': [tag...]}...], 'kind': str, 'reade
      | ['feed', conn, cls, [[field, val]...], progs]    the message goes into the connection's stream: the connection's
                                                         REAL `_message_reader_loop` (one task per connection, message
                                                         source stubbed) takes it when it is free and not closing
-     | ['open', gate] | ['close', conn] (D awaits conn.disconnect()) | ['cancelfut', tag] | ['canceltask', tag]
+     | ['open', gate] | ['close', conn, reason?] (D awaits conn.disconnect(reason)) | ['cancelfut', tag] | ['canceltask', tag]
+     | ['connect', 'r<k>']   a NEW connection of user k comes about (through the real `Network.on_peer_accepted`: registered,
+                             CONNECTED, PeerInit handled, ESTABLISHED, reader task started) — e.g. after the others were closed
   'own': True — the first program of every message is run by a handler in Network._MESSAGE_MAP (the position of the
           Network's own handlers, before the bus emit) instead of by the first bus listener
   progs = [prog of MessageReceivedEvent listener 0, prog of listener 1, ...]  — what the handlers of THIS message do
           between its arrival and the completion of its waiters; prog = [act...]
-  act = ['sleep', k] (k loop iterations) | ['gate', g] | ['close', conn] (await conn.disconnect())
+  act = ['sleep', k] (k loop iterations) | ['gate', g] | ['close', conn, reason?] (await conn.disconnect()) | ['connect', 'r<k>']
       | ['raw'|'wait', tag, matcher] | ['exec', tag, mode 0|1, matcher]   a new request (own caller task)
       | ['nwait'|'nexec', tag, matcher]   the listener awaits wait_for_*_message / execute(response=True) INLINE
       | ['cancelfut', tag] | ['canceltask', tag] | ['raise']
   matcher = {'cls': 's'|'p', 'msg': 0|1, 'peer': None|int, 'fields': [[field, exp]...]}
   exp = 'cN' | 'c<k>' | 'pT' | 'pF' | 'pN' | 'pnn' | 'pge<k>' | 'peq<k>'
-  conn = 's' | 'pN' | 'p<k>' | 'q<k>' (a second connection of user k)
+  conn = 's' | 'pN' | 'p<k>' | 'q<k>' (a second connection of user k) | 'r<k>' (a third one: does not exist before its `connect`)
+  Every connection is a real object in the state the real code puts an established connection in (`set_state(CONNECTED)`
+  reported to the Network, `_finalize_peer_connection`: ESTABLISHED, registered in `peer_connections`, reader task running);
+  's', 'pN', 'p<k>', 'q<k>' exist from the start.
   'fire' of round r: the timeouts of these callers fire at the end of the loop iteration in which
   D runs batch r (after everything that was ready when the iteration began, before the callbacks it
   scheduled) — when the caller computed its timeout while that deadline was still ahead.
@@ -50,7 +55,10 @@ from vlib.common import KResult, Violation, Disagreement, Property
 
 FIELD_NAMES = ['ticket', 'allowed', 'filesize', 'reason', 'username', 'status', 'privileged', 'nosuch']
 CLASS_FIELDS = {0: [0, 1, 2, 3], 1: [4, 5, 6]}      # message class -> attribute (field index) list
-CONN_NAMES = ['s', 'pN', 'p0', 'p1', 'q0', 'q1']    # connection objects (order = identity in the Lean driver)
+CONN_NAMES = ['s', 'pN', 'p0', 'p1', 'q0', 'q1', 'r0', 'r1']    # connection objects (order = identity in the Lean driver)
+INITIAL_CONNS = CONN_NAMES[:6]                       # exist (established) from the start; r<k> only after ['connect', 'r<k>']
+LATE_CONNS = CONN_NAMES[6:]
+CLOSE_REASONS = ['REQUESTED', 'EOF', 'READ_ERROR', 'TIMEOUT', 'WRITE_ERROR', 'UNKNOWN']
 EXTRA_ROUNDS = 3
 EXTRA_ROUNDS_READERS = 8
 FAR = 10 ** 6
@@ -112,6 +120,7 @@ def _validate(case: dict):
     spawned: dict[int, tuple[int, str, int]] = {}      # requests made by the driving task
     by_handler: dict[int, str] = {}                     # requests made by message handlers: tag -> kind
     fired = set()
+    connected: set = set()
     # first pass: every tag a handler program introduces (they may be referred to by later / earlier ops)
     for rnd in case['rounds']:
         for op in rnd['batch']:
@@ -122,6 +131,12 @@ def _validate(case: dict):
                 assert case.get('readers'), 'feed needs reader tasks'
             if op[0] in ('msg', 'feed', 'close'):
                 assert op[1] in CONN_NAMES, 'connection'
+                assert op[1] in INITIAL_CONNS or op[1] in connected, 'the connection does not exist before its `connect`'
+            if op[0] == 'close' and len(op) > 2:
+                assert op[2] in CLOSE_REASONS
+            if op[0] == 'connect':
+                assert op[1] in LATE_CONNS and op[1] not in connected, 'connect: r<k>, once'
+                connected.add(op[1])
             for prog in progs:
                 for a in prog:
                     if a[0] in SPAWN or a[0] in NEST:
@@ -137,7 +152,8 @@ def _validate(case: dict):
                     if a[0] == 'sleep':
                         assert 0 <= a[1] <= 4
                     if a[0] == 'close':
-                        assert a[1] in CONN_NAMES
+                        assert a[1] in INITIAL_CONNS or a[1] in connected, 'connection (exists when the message is fed)'
+                        assert len(a) < 3 or a[2] in CLOSE_REASONS
     for r, rnd in enumerate(case['rounds']):
         for op in rnd['batch']:
             if op[0] in SPAWN:
@@ -270,7 +286,7 @@ def _run_impl(case: dict) -> dict:
     from aioslsk.client import SoulSeekClient
     from aioslsk.settings import Settings
     from aioslsk.events import EventBus, MessageReceivedEvent
-    from aioslsk.protocol.messages import PeerTransferReply, GetUserStatus
+    from aioslsk.protocol.messages import PeerTransferReply, GetUserStatus, PeerInit
     from async_timeout import timeout as atimeout
 
     msg_classes = {0: PeerTransferReply.Request, 1: GetUserStatus.Response}
@@ -289,7 +305,9 @@ def _run_impl(case: dict) -> dict:
 
     async def main(loop):
         bus = EventBus()
-        net = Network(Settings(credentials={'username': 'u', 'password': 'p'}), bus)
+        # (no UPnP job, no reconnect watchdog: CONNECTED / CLOSING of the server connection start / stop nothing)
+        net = Network(Settings(credentials={'username': 'u', 'password': 'p'},
+                               network={'upnp': {'enabled': False}, 'server': {'reconnect': {'auto': False}}}), bus)
         conns: dict[str, Any] = {}
         inbox: dict[str, list] = {c: [] for c in CONN_NAMES}
         waiting: dict[str, asyncio.Future] = {}      # connection -> the future its reader task waits on
@@ -315,33 +333,62 @@ def _run_impl(case: dict) -> dict:
             return {tag: fut_state(f) for tag, f in futs.items()}
 
         def conn_of(c: str):
-            if c not in conns:
-                if c == 's':
-                    conn = net.server_connection
-                else:
-                    user = None if c == 'pN' else f'user{c[1:]}'
-                    conn = PeerConnection('10.0.0.1', 2000 + CONN_NAMES.index(c), net, username=user,
-                                          connection_type=PeerConnectionType.PEER)
-                    net.peer_connections.append(conn)
-                conn._writer = _StubWriter()
-                conn.state = ConnectionState.CONNECTED      # an established connection (no events: nobody listens)
-                orig = conn._perform_message_callback
-
-                async def perform(message, _orig=orig, _c=c):
-                    # entry and exit of what the reader loop awaits for one decoded message
-                    n = len(msgs)
-                    msgs.append(message)
-                    number[id(message)] = n
-                    content[n] = op_of[id(message)]
-                    events.append((loop.iterations, 'arrive', n, _c, fut_states()))
-                    try:
-                        await _orig(message)
-                    finally:
-                        returned.add(n)
-                        events.append((loop.iterations, 'return', n, fut_states()))
-                conn._perform_message_callback = perform
-                conns[c] = conn
             return conns[c]
+
+        async def establish(c: str):
+            """a connection comes about the way the real code brings one about: the Network is told CONNECTED
+            (`Connection.set_state`), a peer connection is registered and initialised by the real `on_peer_accepted`
+            (PeerInit -> user name and type, `_finalize_peer_connection`: ESTABLISHED, reader task); only the socket and
+            the parser are stand-ins"""
+            if c == 's':
+                conn = net.server_connection
+            else:
+                # as ListeningConnection.accept creates it (connection.py:179-185)
+                conn = PeerConnection('10.0.0.1', 2000 + CONN_NAMES.index(c), net, incoming=True,
+                                      connection_type=PeerConnectionType.PEER)
+            conn._reader, conn._writer = object(), _StubWriter()
+            orig = conn._perform_message_callback
+
+            async def perform(message, _orig=orig, _c=c):
+                # entry and exit of what the reader loop awaits for one decoded message
+                n = len(msgs)
+                msgs.append(message)
+                number[id(message)] = n
+                content[n] = op_of[id(message)]
+                events.append((loop.iterations, 'arrive', n, _c, fut_states()))
+                try:
+                    await _orig(message)
+                finally:
+                    returned.add(n)
+                    events.append((loop.iterations, 'return', n, fut_states()))
+            conn._perform_message_callback = perform
+            # the source of decoded messages (`receive_message_object`, i.e. socket + parser): the peer's PeerInit first,
+            # then the scripted stream (reader families) / nothing, for ever (messages delivered by the driving task)
+            first = [] if c in ('s', 'pN') else [PeerInit.Request(f'user{c[1:]}', PeerConnectionType.PEER, 0)]
+
+            async def receive_message_object(_c=c, _first=first):
+                if _first:
+                    return _first.pop(0)
+                while not (readers and inbox[_c]):
+                    g = loop.create_future()
+                    waiting[_c] = g
+                    keep.append(g)
+                    await g
+                return inbox[_c].pop(0)
+            conn.receive_message_object = receive_message_object
+            conns[c] = conn
+            await conn.set_state(ConnectionState.CONNECTED)
+            if c == 's':
+                conn.start_reader_task()                    # client.py (login): the server's reader loop
+            elif c == 'pN':
+                # a messaging connection whose user is not known (kept from the earlier rounds: `peer` is only compared
+                # with a name): registered and finalised directly
+                net.peer_connections.append(conn)
+                net._finalize_peer_connection(conn)
+            else:
+                await net.on_peer_accepted(conn)
+            keep.append(conn._reader_task)
+            return conn
 
         def record(f):
             tag = current['tag']
@@ -440,6 +487,9 @@ def _run_impl(case: dict) -> dict:
                 events.append((loop.iterations, 'canceltask', tag))
                 tasks[tag].cancel()
 
+        def close_reason(op):
+            return CloseReason[op[2]] if len(op) > 2 else CloseReason.REQUESTED
+
         def gate(g):
             if g not in gates:
                 gates[g] = loop.create_future()
@@ -476,7 +526,7 @@ def _run_impl(case: dict) -> dict:
                 elif k == 'gate':
                     await gate(act[1])
                 elif k == 'close':
-                    await conn_of(act[1]).disconnect(CloseReason.REQUESTED)
+                    await conn_of(act[1]).disconnect(close_reason(act))
                 elif k in SPAWN:
                     spawn(act)
                 elif k in NEST:
@@ -565,27 +615,16 @@ def _run_impl(case: dict) -> dict:
             closing = [c for c in CONN_NAMES if c in conns and
                        conns[c].state in (ConnectionState.CLOSING, ConnectionState.CLOSED)]
             calls = ''.join('d' if n in returned else 'r' for n in range(len(msgs)))
+            events.append((loop.iterations, 'snap', len(snaps)))
             snaps.append(f"n={len(msgs)} e={counter.errors} order={','.join(order)} c={','.join(closing)} h={calls}"
                          f" | {' '.join(ents)}")
 
-        if readers:
-            # one reader task per connection: the REAL `_message_reader_loop`; only the source of decoded messages
-            # (`receive_message_object`, i.e. socket + parser) is replaced by the scripted stream
-            def make_source(c):
-                async def receive_message_object():
-                    while not inbox[c]:
-                        g = loop.create_future()
-                        waiting[c] = g
-                        await g
-                    return inbox[c].pop(0)
-                return receive_message_object
-            for c in CONN_NAMES:
-                conn = conn_of(c)
-                conn.receive_message_object = make_source(c)
-                conn.start_reader_task()
-                keep.append(conn._reader_task)
-            await asyncio.sleep(0)
-            await asyncio.sleep(0)
+        # every initial connection exists, established, with its REAL `_message_reader_loop` task (one per connection; only
+        # the source of decoded messages is replaced by the scripted stream)
+        for c in INITIAL_CONNS:
+            await establish(c)
+        await asyncio.sleep(0)
+        await asyncio.sleep(0)
 
         T0 = loop.time()
         loop._vt = T0 + 0.5
@@ -621,7 +660,9 @@ def _run_impl(case: dict) -> dict:
                     if not g.done():
                         g.set_result(None)
                 elif kind == 'close':
-                    await conn_of(op[1]).disconnect(CloseReason.REQUESTED)      # (does not suspend here)
+                    await conn_of(op[1]).disconnect(close_reason(op))      # (does not suspend here)
+                elif kind == 'connect':
+                    await establish(op[1])                                  # (does not suspend either)
                 elif kind == 'cancelfut':
                     cancel_fut(op[1])
                 elif kind == 'canceltask':
@@ -700,7 +741,7 @@ def _model_lines(case: dict) -> list[str]:
             elif k in ('msg', 'feed'):
                 lines.append(' '.join(_msg_tokens(op)))
             else:
-                lines.append(f'{k} {op[1]}')
+                lines.append(f'{k} {op[1]}')       # (open / close / connect / cancelfut / canceltask; a close reason is not modelled)
         lines.append(' '.join(['yield'] + [str(t) for t in rnd['fire']]))
     return lines
 
@@ -850,11 +891,40 @@ def _monitor(case: dict, impl: dict) -> list[Violation]:
         if e[1] == 'canceltask':
             cancelled_task.add(e[2])      # (only used to EXEMPT a caller from the rules about its answer)
 
+    # "completes iff": a pending request ends ONLY by a reply, by its own timeout, by a cancellation of the request or of
+    # its caller, or by the failure of its own send — never by anything else that happens meanwhile (connections that
+    # are closed, opened, lost; other requests; other messages).  cancel_before[i] = requests the script had cancelled
+    # (future or caller task) before snapshot i was taken
+    cancel_before: dict[int, frozenset] = {}
+    acc: set = set()
+    for e in impl['events']:
+        if e[1] == 'cancel':
+            acc.add(e[2])
+        elif e[1] == 'snap':
+            cancel_before[e[2]] = frozenset(acc)
+    fired_so_far: set[int] = set()
+
+    def only_own_events(idx, before, after, where):
+        for tag, (f0, _o0) in before['w'].items():
+            f1 = after['w'].get(tag, ('?', '?'))[0]
+            if f0 != 'P' or f1 not in ('C', 'X'):
+                continue
+            kind, mode, _m = reqs.get(tag, (None, 0, None))
+            if tag in cancel_before.get(idx, ()) or (tag in fired_so_far and tag in armed):
+                continue
+            if kind == 'exec' and mode in (1, 3):
+                continue            # its own `command.send` raised: execute() gives the request up (client.py:282-288)
+            add('C12-ended-without-cause',
+                f'request {tag} was pending and is now {"cancelled" if f1 == "C" else "failed"}, but it got no reply, its '
+                'timeout has not fired, and neither the request nor its caller was cancelled: something else ended it',
+                where, 'pending until a matching reply, its timeout or a cancellation')
+
     for r, rnd in enumerate(rounds):
         for op in rnd['batch']:
             cur = snaps[i]
             where = {'round': r, 'op': op, 'before': impl['snaps'][i - 1] if i else None, 'after': impl['snaps'][i]}
             stable(prev, cur, where)
+            only_own_events(i, prev, cur, where)
             if cur['e'] > prev['e']:
                 add('C12-invalid-state', '"error during callback": on_message_received raised (while its handlers ran or '
                     'while it completed expected responses); the waiters it had not completed yet are skipped', where,
@@ -877,6 +947,8 @@ def _monitor(case: dict, impl: dict) -> list[Violation]:
                     # gets the future's own answer and the timer is dropped
                     natural[tag] = 'r' + f0[1:] if f0.startswith('R') else {'C': 'C', 'X': 'T'}.get(f0, 'T')
         stable(prev, cur, where)
+        fired_so_far.update(rnd['fire'])
+        only_own_events(i, prev, cur, where)
         if cur['e'] > prev['e']:
             add('C12-invalid-state', '"error during callback": on_message_received raised (while its handlers ran or '
                 'while it completed expected responses); the waiters it had not completed yet are skipped', where,
@@ -1133,7 +1205,7 @@ def _reply_to(rng: random.Random, m: dict, pmatch: float = 0.9) -> list:
         if r < 0.4:
             vals[rng.choice(CLASS_FIELDS[cls])] = rng.choice(VALS)
         elif r < 0.7:
-            conn = rng.choice(CONN_NAMES)
+            conn = rng.choice(INITIAL_CONNS)
         else:
             cls = 1 - cls
             vals = {f: rng.choice(VALS) for f in CLASS_FIELDS[cls]}
@@ -1197,7 +1269,7 @@ def _gen_hcase(rng: random.Random, kind: Optional[str] = None) -> dict:
                 gates_used.append((g, r))
                 prog.append(['gate', g])
             elif x < 0.5:
-                prog.append(['close', own_conn if rng.random() < 0.7 else rng.choice(CONN_NAMES)])
+                prog.append(['close', own_conn if rng.random() < 0.7 else rng.choice(INITIAL_CONNS)])
             elif x < 0.62:
                 wk = rng.choice(['raw', 'wait', 'exec'])
                 # often a request the message being handled itself answers (registered while it is handled)
@@ -1270,7 +1342,7 @@ def _gen_hcase(rng: random.Random, kind: Optional[str] = None) -> dict:
             state['gate'] += 1
             gates_used.append((g, r))
             progs = [[['gate', g]]]
-            other = rng.choice([c for c in CONN_NAMES if c != own])
+            other = rng.choice([c for c in INITIAL_CONNS if c != own])
             oc = 1 if other == 's' else rng.randint(0, 1)
             later.setdefault(r, []).append(['feed', other, oc, [[f, rng.choice(VALS)] for f in CLASS_FIELDS[oc]],
                                             [[['close', own]]]])
@@ -1284,7 +1356,7 @@ def _gen_hcase(rng: random.Random, kind: Optional[str] = None) -> dict:
         r = rng.randint(1, nrounds - 3)
         ms = known_matchers(r)
         a = _reply_to(rng, rng.choice(ms), 0.8) if ms and rng.random() < 0.7 else \
-            [rng.choice(CONN_NAMES), 1, [[f, rng.choice(VALS)] for f in CLASS_FIELDS[1]]]
+            [rng.choice(INITIAL_CONNS), 1, [[f, rng.choice(VALS)] for f in CLASS_FIELDS[1]]]
         if a[0] == 's':
             a[1], a[2] = 1, [[f, rng.choice(VALS)] for f in CLASS_FIELDS[1]] if a[1] != 1 else a[2]
         wk = rng.choice(['nwait', 'nwait', 'nexec'])
@@ -1329,7 +1401,7 @@ def _gen_hcase(rng: random.Random, kind: Optional[str] = None) -> dict:
         for _ in range(n_more):
             ms = known_matchers(r)
             trip = _reply_to(rng, rng.choice(ms), 0.85) if ms and rng.random() < 0.85 else \
-                [rng.choice(CONN_NAMES[1:]), rng.randint(0, 1), None]
+                [rng.choice(INITIAL_CONNS[1:]), rng.randint(0, 1), None]
             if trip[2] is None:
                 trip[2] = [[f, rng.choice(VALS)] for f in CLASS_FIELDS[trip[1]]]
             progs = gen_progs(r, trip[0], trip, 0.65 if kind in ('h-mixed', 'h-inline') else 0.3)
@@ -1339,7 +1411,7 @@ def _gen_hcase(rng: random.Random, kind: Optional[str] = None) -> dict:
     for r, ops in later.items():
         rounds[r]['batch'] += ops
     if readers and rng.random() < 0.1:
-        rounds[rng.randint(1, nrounds - 1)]['batch'].append(['close', rng.choice(CONN_NAMES)])
+        rounds[rng.randint(1, nrounds - 1)]['batch'].append(['close', rng.choice(INITIAL_CONNS)])
     own_pos = rng.random() < 0.25
     if own_pos:
         for rnd in rounds:
@@ -1449,6 +1521,135 @@ DIRECTED_H = [
 ]
 
 
+# ---- connection life cycle while requests are pending (round 5) ----------------------------------------------------
+# The requests are matched by peer NAME: a request for user k stays pending whatever happens to the connections of user
+# k — the one it went out on included — and is completed by a reply over whichever connection of user k exists then.
+
+_UREQ = {'cls': 'p', 'msg': 0, 'peer': 0, 'fields': []}
+DIRECTED_L = [
+    # every connection of the user is closed (last one last), a new one comes about, the reply arrives over it
+    {'kind': 'directed-l-reply-over-new-connection', 'readers': True, 'rounds': [
+        {'batch': [['wait', 0, _PREQ], ['exec', 1, 0, _UREQ], ['raw', 2, _PREQ]], 'fire': []}, _E,
+        {'batch': [['close', 'q0', 'REQUESTED'], ['close', 'p0', 'EOF']], 'fire': []}, _E,
+        {'batch': [['connect', 'r0'], ['feed', 'r0', 0, _PATTR, []]], 'fire': []}, _E, _E]},
+    # … and nothing arrives: every caller gets TimeoutError when ITS timeout fires, not before
+    {'kind': 'directed-l-no-reply-times-out', 'readers': True, 'rounds': [
+        {'batch': [['wait', 0, _PREQ], ['exec', 1, 0, _UREQ], ['raw', 2, _PREQ]], 'fire': []}, _E,
+        {'batch': [['close', 'p0', 'READ_ERROR'], ['close', 'q0', 'TIMEOUT']], 'fire': []}, _E,
+        {'batch': [], 'fire': [0]}, {'batch': [['connect', 'r0']], 'fire': [1]}, {'batch': [], 'fire': [2]}, _E]},
+    # the same with messages delivered by the driving task
+    {'kind': 'directed-l-inline', 'rounds': [
+        {'batch': [['wait', 0, _PREQ1], ['exec', 1, 0, _PREQ1]], 'fire': []}, _E,
+        {'batch': [['close', 'p1'], ['close', 'q1', 'EOF']], 'fire': []},
+        {'batch': [['connect', 'r1']], 'fire': []}, {'batch': [['msg', 'r1', 0, _PATTR]], 'fire': []}, _E]},
+    # the server connection is lost while server requests are pending: they wait for their timeouts
+    {'kind': 'directed-l-server-lost', 'readers': True, 'rounds': [
+        {'batch': [['wait', 0, _SREQ], ['raw', 1, _SREQ], ['exec', 2, 0, _SREQ]], 'fire': []}, _E,
+        {'batch': [['close', 's', 'EOF']], 'fire': []}, _E, {'batch': [], 'fire': [0, 2]}, {'batch': [], 'fire': [1]}, _E]},
+    # the handler of the reply's predecessor on the same connection closes the last connection; the new connection is
+    # there before the old handler returns
+    {'kind': 'directed-l-closed-by-handler', 'readers': True, 'rounds': [
+        {'batch': [['wait', 0, _PREQ]], 'fire': []}, _E,
+        {'batch': [['close', 'q0'], ['feed', 'p0', 0, [[0, 1], [1, 1], [2, 0], [3, None]], [[['close', 'p0', 'EOF'], ['sleep', 2]]]]],
+         'fire': []},
+        {'batch': [['connect', 'r0'], ['feed', 'r0', 0, _PATTR, []]], 'fire': []}, _E, _E]},
+]
+
+
+def _gen_lcase(rng: random.Random) -> dict:
+    """connection life cycle: 1..3 requests for a user (or for the server), then that user's connections are closed — all
+    of them or all but one, by the driving task / by a message handler, for any reason — possibly a new connection comes
+    about, and the reply arrives over a connection that exists then (or never: the timeouts fire)"""
+    readers = rng.random() < 0.7
+    nrounds = rng.randint(6, 9)
+    rounds = [{'batch': [], 'fire': []} for _ in range(nrounds)]
+    server = rng.random() < 0.15
+    k = rng.randint(0, 1)
+    mop = 'feed' if readers else 'msg'
+    tags = []
+    ms = []
+    for t in range(rng.randint(1, 3)):
+        wk = rng.choice(['raw', 'wait', 'wait', 'exec', 'exec'])
+        for _ in range(40):
+            m = _easy_matcher(rng, wk)
+            if (m['cls'] == 's') == server:
+                break
+        else:
+            m = dict(_SREQ) if server else dict(_UREQ)
+        m = dict(m, peer=None if server else k)
+        r0 = rng.choice([0, 0, 1])
+        rounds[r0]['batch'].append([wk, t, m] if wk != 'exec' else [wk, t, rng.choice([0, 0, 0, 2]), m])
+        tags.append((t, r0, wk))
+        ms.append(m)
+    own = ['s'] if server else [f'p{k}', f'q{k}']
+    keep_one = (not server) and rng.random() < 0.25
+    to_close = list(own)
+    rng.shuffle(to_close)
+    if keep_one:
+        to_close = to_close[:1]
+    open_now = set(own)
+    last_close = 1
+    for c in to_close:
+        r = rng.randint(1, nrounds - 4)
+        last_close = max(last_close, r)
+        reason = rng.choice(CLOSE_REASONS)
+        how = rng.random()
+        if how < 0.6 or not readers:
+            rounds[r]['batch'].append(['close', c, reason])
+        elif how < 0.8:
+            # closed by the handler of a message that arrives on it (and does not answer anything: wrong class fields)
+            other_cls = 1
+            rounds[r]['batch'].append(['feed', c, other_cls, [[f, rng.choice(VALS)] for f in CLASS_FIELDS[other_cls]],
+                                       [[['close', c, reason]] + ([['sleep', 1]] if rng.random() < 0.5 else [])]])
+        else:
+            # closed by the handler of a message on another connection
+            oc = rng.choice([x for x in INITIAL_CONNS if x not in own])
+            cls = 1 if oc == 's' else rng.randint(0, 1)
+            rounds[r]['batch'].append(['feed', oc, cls, [[f, rng.choice(VALS)] for f in CLASS_FIELDS[cls]],
+                                       [[['close', c, reason]]]])
+        open_now.discard(c)
+    new_conn = None
+    if not server and rng.random() < 0.7:
+        rc = rng.randint(last_close, nrounds - 3) if rng.random() < 0.8 else rng.randint(1, nrounds - 3)
+        new_conn = f'r{k}'
+        rounds[rc]['batch'].append(['connect', new_conn])
+    else:
+        rc = None
+    # the reply: over the new connection / over the one that was kept / never
+    answered = False
+    cands = ([new_conn] if new_conn else []) + sorted(open_now)
+    if cands and rng.random() < 0.7:
+        c = rng.choice(cands)
+        lo = (rc if c == new_conn else last_close)
+        rr = rng.randint(lo, nrounds - 2)
+        rep = _reply_to(rng, rng.choice(ms), 0.95)
+        rounds[rr]['batch'].append([mop, c, rep[1], rep[2]] + ([[]] if readers else []))
+        if rng.random() < 0.3:
+            # … and the new connection is closed again right after / a second reply follows
+            rounds[min(nrounds - 1, rr + 1)]['batch'].append(['close', c, rng.choice(CLOSE_REASONS)])
+        answered = True
+    # a stranger's message of the same class (another user) must complete nothing
+    if not server and rng.random() < 0.3:
+        rep = _reply_to(rng, rng.choice(ms), 1.0)
+        rounds[rng.randint(1, nrounds - 2)]['batch'].append([mop, f'p{1 - k}', rep[1], rep[2]] + ([[]] if readers else []))
+    for (t, r0, wk) in tags:
+        if rng.random() < (0.5 if answered else 0.9):
+            need = 3
+            rf = rng.randint(max(r0 + need, nrounds - 3), nrounds - 1)
+            if len(rounds[rf]['fire']) < 8:
+                rounds[rf]['fire'].append(t)
+        elif rng.random() < 0.15 and r0 + 2 < nrounds:
+            rounds[rng.randint(r0 + 2, nrounds - 1)]['batch'].append([rng.choice(['cancelfut', 'canceltask']), t])
+    for rnd in rounds:
+        # requests first; a `connect` before anything that uses the connection; the rest in the order built
+        rnd['batch'].sort(key=lambda op: 0 if op[0] in SPAWN else 1)
+    case = {'rounds': rounds, 'kind': 'l-server' if server else ('l-readers' if readers else 'l-inline'), 'readers': readers}
+    if readers:
+        nmsg = sum(1 for rnd in rounds for op in rnd['batch'] if op[0] == 'feed')
+        case['extra'] = 10 + 2 * nmsg
+    return case
+
+
 def _corpus_cases() -> list[dict]:
     """corpus/C12/*.json: generated cases that caught a seeded change of each handler class, and the inputs of
     false alarms of this monitor (kept as regression cases); run on every check"""
@@ -1462,7 +1663,136 @@ def _corpus_cases() -> list[dict]:
     return out
 
 
+# ---- command family (round 5): every command class, executed by the real client against a remote end that answers -------
+# case = {'family': 'cmd', 'kind': 'cmd-…', 'cmd': class name, 'timeout': T, + the scenario keys of vlib.cmdrig.run_case}
+# Monitor only (real SoulSeekClient + real sockets' worth of connection code: no model).  What "answers" a request is
+# decided from the request the remote end RECEIVED (the protocol's reply echoes its user / room / item / ticket /
+# directory), never from what the command chose to expect.
+
+def _cmd_inventory() -> list[dict]:
+    from vlib import cmdrig
+    inv = cmdrig.command_inventory()
+    if not inv:
+        raise cmdrig.InventoryError('no command classes found in aioslsk.commands')
+    for c in inv:
+        cmdrig.make_command(c['name'])          # (unknown constructor parameter -> InventoryError)
+    return inv
+
+
+def _valid_cmd_case(case: dict) -> bool:
+    peer = case['cmd'].startswith('Peer')
+    via, hang, conn = case.get('via'), case.get('hangup'), case.get('connect')
+    if not peer:
+        return via in (None, 'same') and not hang and not case.get('second') and not case.get('stranger')
+    if case.get('server_drop'):
+        return False
+    if via == 'second' and not case.get('second'):
+        return False
+    if via == 'same' and hang == 'reset':
+        return False        # a reset right behind the reply may destroy the reply (as on a real socket)
+    if via == 'new-pierce' and conn == 'indirect':
+        return False        # a peer that cannot be connected to cannot be connected to on its request either
+    return True
+
+
+def _gen_cmd_cases(rng: random.Random, tier: str, widen: int = 1) -> list[dict]:
+    inv = [c for c in _cmd_inventory() if c['expects']]
+    cases = []
+    for c in inv:
+        peer = c['name'].startswith('Peer')
+        base = {'family': 'cmd', 'cmd': c['name'], 'connect': 'direct', 'hangup': None, 'second': False,
+                'stranger': False, 'server_drop': False}
+        # every command: answered (plain, and behind a message of the same class that does not answer it), unanswered
+        cases.append(dict(base, kind='cmd-answered', timeout=8, via='same', delay=1.0, decoy=False))
+        cases.append(dict(base, kind='cmd-answered-after-decoy', timeout=rng.choice([3, 8, 15]), via='same',
+                          delay=rng.choice([0.0, 0.5, 2.0]), decoy=True))
+        cases.append(dict(base, kind='cmd-unanswered', timeout=rng.choice([3, 8, 15]), via=None, delay=0.0, decoy=False))
+        cases.append(dict(base, kind='cmd-answered-late', timeout=3, via='same', delay=4.5, decoy=False))
+        if not peer:
+            cases.append(dict(base, kind='cmd-server-lost', timeout=rng.choice([3, 8]), via=None, delay=0.0, decoy=False,
+                              server_drop=True))
+            continue
+        # peer commands: the life of the connections between request and reply
+        combos = [dict(base, kind='cmd-peer-lifecycle', timeout=T, via=via, delay=delay, decoy=decoy, connect=conn,
+                       hangup=hang, second=second, stranger=stranger)
+                  for conn in ('direct', 'indirect', 'pre') for hang in (None, 'eof', 'reset')
+                  for via in (None, 'same', 'second', 'new-in', 'new-pierce') for second in (False, True)
+                  for stranger in (False, True) for decoy in (False, True)
+                  for T, delay in ((8, 2.0),)]
+        combos = [x for x in combos if _valid_cmd_case(x)]
+        if tier == 'quick':
+            # all the ways a reply can come back after the request's connection went away, + a sample of the rest
+            must = [x for x in combos if x['hangup'] and not x['second'] and not x['stranger'] and not x['decoy']]
+            rest = [x for x in combos if x not in must]
+            combos = must + rng.sample(rest, min(len(rest), 24 * widen))
+        for x in combos:
+            x['timeout'] = rng.choice([3, 8, 15])
+            x['delay'] = rng.choice([0.0, 0.4, 2.0])
+        cases += combos
+    return cases
+
+
+def _monitor_cmd(case: dict, obs: dict) -> list[Violation]:
+    vs: list[Violation] = []
+
+    def add(sig, what, required=None):
+        vs.append(Violation(sig, what, case, observed={k: v for k, v in obs.items()}, required=required))
+
+    if obs.get('rig_error'):
+        add('C12-cmd-impl-error', f"the scenario could not be driven: {obs['rig_error']}"[:300])
+        return vs
+    T = float(case['timeout'])
+    name = case['cmd']
+    if obs.get('registered') != 1 or not obs.get('request_seen') or obs.get('sent_after') is None:
+        add('C12-cmd-impl-error', f'execute({name}, response=True) registered {obs.get("registered")} expected responses; '
+            f'request reached the remote end: {obs.get("request_seen")} (outcome {obs.get("outcome")!r})')
+        return vs
+    deadline = obs['sent_after'] + T            # execute() arms its timeout when `command.send` has returned
+    eps = 1e-6
+    replied = obs.get('reply_sent_after')
+    in_time = replied is not None and replied < deadline - eps
+    out, fut = obs['outcome'], obs.get('fut')
+    if fut == 'R' and not obs.get('fut_is_reply'):
+        add('C12-wrong-completion', f'the request of {name} was completed by a message that does not answer it '
+            f'({"the decoy" if obs.get("fut_is_decoy") else "from connection of " + str(obs.get("fut_conn_user"))})',
+            'completed only by the reply to the request that was sent')
+    if in_time:
+        if fut != 'R' or out in ('timeout', 'cancelled', 'hangs'):
+            add('C12-missed-completion',
+                f'{name}: the remote end received the request and its reply (echoing the request) was delivered '
+                f'{replied:.2f}s after execute() began, timeout due at {deadline:.2f}s; the request is {fut}, the caller got '
+                f'{out!r} after {obs["t_end"]:.2f}s', 'completed with the reply')
+    else:
+        early = obs['t_end'] < deadline - eps
+        if out == 'timeout' and not early and obs['t_end'] <= deadline + eps:
+            pass
+        elif fut == 'R':
+            pass        # (reported above when the completing message is not the reply)
+        elif early and out in ('cancelled', 'timeout') or out.startswith('error:'):
+            add('C12-ended-without-cause' if early else 'C12-timeout-not-timeout',
+                f'{name}: no reply arrived{" yet" if case.get("via") else ""}; the caller got {out!r} after '
+                f'{obs["t_end"]:.2f}s, its timeout was due at {deadline:.2f}s (nobody cancelled the request or its caller)',
+                f'TimeoutError at {deadline:.2f}s')
+        else:
+            add('C12-timeout-not-timeout', f'{name}: no reply arrived in time; the caller got {out!r} after '
+                f'{obs["t_end"]:.2f}s (timeout due at {deadline:.2f}s)', f'TimeoutError at {deadline:.2f}s')
+    if obs.get('residue') or obs.get('still_listed'):
+        add('C12-residue', f'{name}: {obs.get("residue")} completed / cancelled request(s) still listed two loop iterations '
+            'after the caller was answered', 'removed')
+    return vs
+
+
+def _eval_cmd_case(case: dict) -> dict:
+    from vlib import cmdrig
+    try:
+        return cmdrig.run_case(case)
+    except (cmdrig.InventoryError, RuntimeError, TimeoutError) as e:
+        return {'rig_error': f'{type(e).__name__}: {e}'[:400]}
+
+
 def _eval_case(case):
+    if case.get('family') == 'cmd':
+        return _eval_cmd_case(case)
     try:
         return _run_impl(case)
     except AssertionError:
@@ -1572,6 +1902,22 @@ def _features(case: dict, impl: dict) -> set[str]:
             feats.add('h:nested-' + ('result' if o.startswith('r') else {'T': 'timeout', 'C': 'cancelled', '-': 'waiting'}.get(o, 'other')))
     if snaps and any(s['closing'] for s in snaps):
         feats.add('h:connection-closed')
+    # life cycle: a connection went away while a request that names its user (or the server) was pending
+    for a, b in zip(snaps, snaps[1:]):
+        for c in set(b['closing']) - set(a['closing']):
+            who = None if c in ('s', 'pN') else int(c[1:])
+            for t, (f, _o) in a['w'].items():
+                if f == 'P' and t in reqs and ((reqs[t][2]['cls'] == 's') == (c == 's')) and \
+                        (c == 's' or reqs[t][2]['peer'] == who):
+                    feats.add('l:connection-closed-while-request-pending')
+                    if c != 's' and all(x in b['closing'] for x in (f'p{who}', f'q{who}')):
+                        feats.add('l:last-initial-connection-of-the-user-closed-while-request-pending')
+    if any(op[0] == 'connect' for rnd in case['rounds'] for op in rnd['batch']):
+        feats.add('l:new-connection')
+        ev_arr = [e for e in ev if e[1] == 'arrive' and e[3] in LATE_CONNS]
+        if any(any(st == f'R{e[2]}' for st in (next((r[3] for r in ev if r[1] == 'return' and r[2] == e[2]), {}) or {}).values())
+               for e in ev_arr):
+            feats.add('l:completed-by-reply-over-new-connection')
     return feats
 
 
@@ -1587,11 +1933,24 @@ class C12(Property):
             'families: messages go through one REAL reader loop per connection and carry programs for 1..3 '
             'MessageReceivedEvent listeners (suspend 1..3 iterations / on a gate, close the connection the message came on or '
             'another one, register requests, await a nested request inline whose reply arrives on another connection / '
-            'later in the same stream, cancel, raise); derived '
+            'later in the same stream, cancel, raise); life-cycle families: every connection is a real object brought '
+            'about by the real accept / finalise path (registered, CONNECTED reported to the Network, ESTABLISHED, reader '
+            'task), the connections of the user a request waits for are closed (all / all but one; by the driving task, by '
+            'a handler on the same or another connection; every CloseReason), a NEW connection of that user comes about, '
+            'the reply arrives over a connection that exists then or never (timeouts); command family (monitor only): every '
+            'BaseCommand subclass of aioslsk/commands.py that expects a response (inventory by introspection) is executed by '
+            'a real logged-in SoulSeekClient (FakeNet sockets, scripted server and peers) with response=True against a '
+            'remote end that answers the request it RECEIVED (reply echoes user / room / item / ticket / directory), after a '
+            'decoy of the same class, late, or never; peer commands x how the request connection comes about (direct / '
+            'indirect / existing) x what the peer does with it after reading the request (keeps / closes / resets) x how '
+            'the reply comes back (same / second / new incoming / new connection on the peer\'s request via the server) x a '
+            'stranger\'s identical reply; derived '
             'from VERIF_SEED; a case is non-trivial when a message completed a request AND at least one of: a timeout '
             'fired on a waiting caller, a cancellation (also of execute() inside command.send), a failing send, a message '
             'delivered while a completed future was still listed, a handler that closed the connection / suspended / '
-            'registered the completed request, overlapping calls of on_message_received; distinct = distinct canonical script')
+            'registered the completed request, overlapping calls of on_message_received, a connection closed while a request '
+            'was pending; a command scenario when the reply was delivered and a connection went away / a decoy / a stranger '
+            'preceded it / it came over another connection; distinct = distinct canonical script')
     assumptions = [
         'asyncio semantics (FIFO call_soon, done-callbacks run one iteration later, Task.cancel/must_cancel, '
         'asyncio.Timeout, timers run last in their iteration) are modelled in the Lean driver\'s ready-queue mirror and '
@@ -1601,13 +1960,20 @@ class C12(Property):
         'order; across connections a message whose handlers are slow can be overtaken — there is no order on the wire)',
         'a reader task is not cancelled while a handler of its message runs; Network\'s own MESSAGE_MAP handler does not raise',
         'a caller task is cancelled only after its first step ran (a task cancelled before it starts registers nothing)',
+        'command family: "the message answers the request" is read off the request the remote end received — the reply '
+        'the protocol (and aioslsk\'s own responder code) gives echoes its user name / room / item / ticket / directory; a '
+        'reply written right before an abortive close (RST) may be lost and is not generated',
     ]
     modelled = ('ExpectedResponse.matches; create_server/peer_response_future, register_response_future, '
                 '_remove_response_future; wait_for_server/peer_message incl. timeout path; on_message_received as '
                 'arrive (handlers start) / finish (completion loop) with anything in between, overlapping calls, '
                 'connection state; SoulSeekClient.execute (register, send ok/raises/suspends/is cancelled while suspended, '
                 'await with timeout). '
-                'Driver-level (ready-queue mirror, not theorem subjects): reader loop per connection, listener programs. '
+                'connection life cycle (set_state reports, accept / finalise of a new connection) as connState ops that '
+                'touch no request. '
+                'Driver-level (ready-queue mirror, not theorem subjects): reader loop per connection (also of a connection '
+                'that comes about later), listener programs. '
+                'Monitor only (no model): the command classes of commands.py through the real client and connection code. '
                 'Not modelled: asyncio.wait-based use in _make_indirect_connection (only its fut.cancel()), real '
                 'sockets/parser, cancellation of a reader task inside a handler')
 
@@ -1619,7 +1985,18 @@ class C12(Property):
         cases = list(DIRECTED) + list(DIRECTED_H) + _corpus_cases() + [_gen_case(rng) for _ in range(n)]
         rng_h = random.Random(f'C12-h-{seed}')
         cases += [_gen_hcase(rng_h) for _ in range(nh)]
-        impl = common.parallel_map(_eval_case, cases)
+        rng_l = random.Random(f'C12-l-{seed}')
+        nl = (500 if tier == 'quick' else 12000) * widen
+        cases += list(DIRECTED_L) + [_gen_lcase(rng_l) for _ in range(nl)]
+        ncmd0 = len(cases)
+        try:
+            cmd_cases = _gen_cmd_cases(random.Random(f'C12-cmd-{seed}'), tier, widen)
+        except Exception as e:  # noqa   (reported by the inventory obligation, see regenerate)
+            cmd_cases = []
+            res.notes.append(f'command family not run: {type(e).__name__}: {e}'[:300])
+        impl = common.parallel_map(_eval_case, cases + cmd_cases)
+        impl_cmd = impl[ncmd0:]
+        impl = impl[:ncmd0]
         model = None
         if model_ok:
             lines, spans = [], []
@@ -1650,7 +2027,7 @@ class C12(Property):
                     'msg-while-done-future-listed', 'task-cancelled-during-send',
                     'h:completed-after-own-handler-closed-connection', 'h:completed-after-suspended-handler',
                     'h:completed-request-registered-by-handler', 'h:calls-overlap',
-                    'h:nested-request-answered-while-outer-call-runs'}:
+                    'h:nested-request-answered-while-outer-call-runs', 'l:connection-closed-while-request-pending'}:
                 res.nontrivial_keys.add(common.sha(c['rounds']))
             if model is not None:
                 res.traces_validated += 1
@@ -1664,9 +2041,41 @@ class C12(Property):
             res.violations += _monitor(c, io)
             if len(res.samples) < 3 and c['kind'].startswith('directed-h'):
                 res.samples.append({'case': c, 'impl': io['snaps']})
+        # command family: monitor only
+        answered: set = set()
+        for c, obs in zip(cmd_cases, impl_cmd):
+            res.evaluations += 1
+            res.count('kind:' + c['kind'])
+            res.count('cmd:' + c['cmd'])
+            for key in ('via', 'hangup', 'connect'):
+                if c['cmd'].startswith('Peer'):
+                    res.count(f'cmd-{key}:{c.get(key)}')
+            vs = _monitor_cmd(c, obs)
+            res.violations += vs
+            if obs.get('request_seen') and obs.get('reply_sent_after') is not None:
+                answered.add(c['cmd'])
+                if c.get('hangup') or c.get('decoy') or c.get('stranger') or c.get('via') not in (None, 'same'):
+                    res.nontrivial_keys.add(common.sha(c))
+            if len(res.samples) < 4 and c['kind'] == 'cmd-peer-lifecycle' and c.get('via') == 'new-pierce':
+                res.samples.append({'case': c, 'impl': {k: v for k, v in obs.items() if k != 'events'}})
+        if cmd_cases:
+            # coverage floor: every command class that expects a response was executed against a reply that answers it
+            missing = sorted({c['cmd'] for c in cmd_cases} - answered)
+            res.count('cmd-classes-answered', len(answered))
+            if missing and not any(str(v.signature).endswith('impl-error') for v in res.violations):
+                res.disagreements.append(Disagreement({'commands': missing}, 'never executed against an answering reply',
+                                                      'every command class with an expected response is', 'command-inventory'))
         return res
 
+    def regenerate(self):
+        # inventory obligation: every command class of aioslsk/commands.py can be instantiated by the command family
+        # (a class it has no recipe for is reported, never skipped)
+        inv = _cmd_inventory()
+        return [f'command inventory: {len(inv)} classes, {sum(1 for c in inv if c["expects"])} expect a response']
+
     def replay(self, case):
+        if case.get('family') == 'cmd':
+            return _monitor_cmd(case, _eval_cmd_case(case))
         return _monitor(case, _eval_case(case))
 
     def known_witnesses(self):
